@@ -32,4 +32,10 @@ CLAIMED = {
   "text": "StubAlloc.tla models Acquire: the mmap path as a fresh-region action and the reserve fallback as its two atomic steps (load; add+checks). TLC checks pairwise disjointness, containment in the reserve, size and no-overrun over every interleaving of 2-3 processes x requests x sizes with the primary path succeeding or failing, prints every complete interleaving of the fallback, and an in-package driver replays each on the real acquireFromHolder (reserve shrunk to R units so exhaustion is reached) through the holder.loaded hook comparing every granted offset / error. Free-running goroutines request through public Acquire and the fallback up to exhaustion; each region is written through stub.Write, executed, looked up in /proc/self/maps, and TLC evaluates StubAlloc's invariants on the recorded regions (an overlapping copy must be rejected).",
   "note": "Trusted: TLC, the gate scheduler, rank compression of addresses (order preserving). The mmap path's freshness is the kernel's; we check disjointness of what it returned. Requires the verif hooks.",
  },
+ "C19": {
+  "ref": "DESIGN.md §4 C19",
+  "technique": "TLA+ lifecycle spec Goom.tla with logging switches as actions that change only the logging variable; TLC-generated behaviours replayed on the real library under four logging configurations against a logging-free oracle",
+  "text": "In spec/Goom.tla OpenDebug/CloseDebug/OpenTrace/CloseTrace are actions that change only `lg`, and Apply records whether the replacement was wrapped by the debug interceptor; the requirement layer has no logging variable. TLC checks mechanism=>requirement with the switches interleaved everywhere (depth 4/5) and generates histories with switches at TLC-chosen points; the same behaviours are replayed under logging off, OpenDebug, OpenTrace and GOOM_DEBUG=1 (4 handle kinds), and every call result / image observation must equal the logging-free requirement. The driver counts steps performed with debug open so a vacuous run is exit 2.",
+  "note": "Trusted: TLC, Go replayer. Values in this family are ints; rendering of nil pointers / nil interfaces / cyclic structures by the debug interceptor is exercised by the C01 signature zoo replayed under debug (see C01).",
+ },
 }
